@@ -6,17 +6,25 @@ import engine
 def run(ctx):
     rnd = ctx.rnd
     ctx.rule = ("random CIDs (1-4 fields, 0-2 checks incl. end-of-data checks, header 0-2, delimited/fixed) x tables of 0-8 rows with accepted and rejected rows "
-                "x {no fault, malformed tail after the last row (unterminated quote / short record), undecodable bytes in front of any record of a file read through its path} x three modes x {Reader class (in half of the cases all three Reader objects are created before the first is used), cutplace.rows function}; relational checks between the runs of one case; "
+                "x {no fault, malformed tail after the last row (unterminated quote / short record), fixed-width: a stray character instead of the last line delimiter, other characters in place of the delimiter of any record, undecodable bytes in front of any record of a file read through its path} x three modes x {Reader class (in half of the cases all three Reader objects are created before the first is used), cutplace.rows function}; relational checks between the runs of one case; "
                 "distinct = distinct (CID, table, fault); non-trivial = at least one data row")
     n = 700 if ctx.tier == "quick" else 8000
     scns = []
     for _ in range(n):
         fmt = rnd.choice(["delimited", "delimited", "fixed"])
+        line = rnd.choice(["lf", "cr", "crlf", "any", "none"])
         fields = engine.gen_fields(rnd, rnd.randint(1, 4), fmt)
         table = engine.gen_table(rnd, fields, fmt, rnd.randint(0, 8), p_bad=rnd.choice([0.0, 0.15, 0.3]))
         fault = rnd.random() < 0.2
         if fmt == "fixed" and sum(f["width"] for f in fields) < 2:
             fault = False   # a one character tail would be a complete record of this CID, not a short one
+        model_rows = None
+        if fault and fmt == "fixed" and table and line != "none" and rnd.random() < 0.5:
+            if rnd.random() < 0.5:
+                fault, model_rows = {"kind": "nodelim"}, table[:-1]
+            else:
+                at = rnd.randrange(len(table))
+                fault, model_rows = {"kind": "wrongdelim", "at": at}, table[:at]
         fault_at = None
         if rnd.random() < 0.12:
             # undecodable bytes in front of record `fault_at` of a file that is read through its path
@@ -29,9 +37,11 @@ def run(ctx):
                 runs.append({"kind": "R", "api": api, "mode": mode, "limit": None, "fault": fault, "rows": table, "close": True})
                 if fault_at is not None:
                     runs[-1]["fault_at"] = fault_at
+                if model_rows is not None and fault != "bytes":
+                    runs[-1]["model_rows"] = model_rows
                 if early and api == "c":
                     runs[-1]["early"] = True
-        scns.append({"format": fmt, "line": rnd.choice(["lf", "cr", "crlf", "any", "none"]), "allowed": None, "fields": fields, "checks": engine.gen_checks(rnd, fields), "header": rnd.choice([0, 0, 1, 2]), "runs": runs})
+        scns.append({"format": fmt, "line": line, "allowed": None, "fields": fields, "checks": engine.gen_checks(rnd, fields), "header": rnd.choice([0, 0, 1, 2]), "runs": runs})
     for scn, mruns, iruns in engine.run_scenarios(scns):
         sc = engine.strip_scn(scn)
         sc["runs"] = [dict(r, rows="<table>") for r in sc["runs"]]
